@@ -277,6 +277,9 @@ const (
 	tShStderr = "sh-desc-holds-stderr-only"
 	tShStdin  = "sh-desc-holds-stdin-only" // with req=large: the host's stdin writer blocks on a full pipe
 	tShSetsid = "sh-desc-setsid"           // descendant in its own session, holds stdout+stderr
+	// prints its stderr COMPLETELY (then creates the file "printed"), and only then sleeps far past the context's end
+	tShErrSleep       = "sh-stderr-then-sleep-60s"
+	tShErrSleepNoTerm = "sh-stderr-then-sleep-60s-ignore-term"
 )
 
 const (
@@ -287,5 +290,6 @@ const (
 	cFar        = "deadline-far"
 )
 
-func isDesc(t string) bool { return strings.Contains(t, "desc") }
-func isSh(t string) bool   { return strings.HasPrefix(t, "sh-") }
+func isDesc(t string) bool         { return strings.Contains(t, "desc") }
+func isErrThenSleep(t string) bool { return t == tShErrSleep || t == tShErrSleepNoTerm }
+func isSh(t string) bool           { return strings.HasPrefix(t, "sh-") }
